@@ -276,6 +276,7 @@ func (c *client) SendBatch(ctx context.Context, batch []hrpc.Call) (
 	var unretryableErrorSeen bool
 	var retries []hrpc.Call
 	backoff := backoffStart
+	immediateRetries := 0
 
 	for {
 		// findClients reports an error at the position of the call in the
@@ -331,6 +332,15 @@ func (c *client) SendBatch(ctx context.Context, batch []hrpc.Call) (
 		// retries is empty), or the context is done.
 		if len(retries) == 0 || ctx.Err() != nil {
 			break
+		}
+		if !needBackoff {
+			// Like SendRPC, retry connection-level and region errors
+			// immediately to fail over fast, but start to back off if
+			// they keep coming: we don't want to overwhelm HBase.
+			if immediateRetries > 1 {
+				needBackoff = true
+			}
+			immediateRetries++
 		}
 		if needBackoff {
 			sp.AddEvent("retrySleep")
